@@ -57,11 +57,52 @@ def menu():
     return m
 
 
+PATH_TOKENS = ['x', 'y', '/', '//', ':', 'http:', '[', ']', '@', '?', '#', '.', '..', ' ', '%', ';', '1']
+
+
+def path_strings(n, first=None):
+    import itertools
+    for k in range(0, n + 1):
+        for t in itertools.product(PATH_TOKENS, repeat=k):
+            if first is not None and (not t or t[0] != first):
+                continue
+            yield '/' + ''.join(t)
+
+
+def work_paths(res, om, first, n):
+    """all request paths over URL-syntax tokens against a fixed application: 404 exactly for the paths that match no
+    route, 405 / 200 for the ones that do (the path may look like a URL, an IPv6 literal, a query ...)"""
+    app = om.Ombott()
+    for rule, meth in (('/x', 'GET'), ('/x/{p}', 'GET'), ('/y', 'POST')):
+        app.route(rule, meth, make_handler(app, 'H' + rule))
+    m = Model()
+    m.t = {'/x': {'GET': 'H/x'}, '/x/{p}': {'GET': 'H/x/{p}'}, '/y': {'POST': 'H/y'}}
+    c = res['counters']
+    for path in path_strings(n, first):
+        for meth in ('GET', 'POST'):
+            case = {'kind': 'path', 'path': path, 'method': meth}
+            core.track(res, case)
+            exp = m.expect(meth, path)
+            got = probe(app, meth, path)
+            res['states'] += 1
+            res['transitions'] += 1
+            c['path_probes'] += 1
+            c['probes'] += 1
+            if exp[0] in (404, 405):
+                c['r%d' % exp[0]] += 1
+            res['outcomes'].add(f'path probe -> {exp[0]}')
+            if got[0] != exp[0] or (exp[0] == 200 and got[1] != exp[1]) or (exp[0] == 405 and got[2] != exp[2]):
+                cls = 'path-status-%s' % got[0]
+                core.add_violation(res, case, f'{meth} {path!r}: status {got[0]} handler {got[1]} Allow {got[2]!r}; expected {exp[:3]!r}', sig=cls)
+    core.untrack()
+
+
 def shards(tier, seed):
     depth = 3 if tier == 'quick' else 5
     m = menu()
     # one shard per first operation (the search below each first op is independent)
     out = [('bfs', i, depth) for i in range(len(m))]
+    out += [('paths', t, 3 if tier == 'quick' else 4) for t in PATH_TOKENS]
     # seed extension: a third editable rule / another method joins the menu at depth 3
     out.append(('extra', seed % 3, 3))
     return out
@@ -69,7 +110,7 @@ def shards(tier, seed):
 
 def bounds(tier, seed):
     return {'menu': len(menu()), 'depth': 3 if tier == 'quick' else 5, 'rules': RULES + ['/y (static, GET)'],
-            'request_methods': REQ_METHODS, 'paths': PATHS}
+            'request_methods': REQ_METHODS, 'paths': PATHS, 'path_enumeration': {'tokens': PATH_TOKENS, 'max_tokens': 3 if tier == 'quick' else 4}}
 
 
 FLOORS = {'probes': 10000, 'via_verb': 1000, 'via_head_get': 100, 'via_any': 500, 'r405': 1000, 'r404': 1000,
@@ -234,6 +275,11 @@ def work(spec):
     res = core.new_result()
     om = sut.load()
     c = res['counters']
+    if kind == 'paths':
+        work_paths(res, om, a, depth)
+        res['execs'] = res['transitions']
+        core.add_sample(res, {'path_tokens': PATH_TOKENS, 'first_token': a, 'max_tokens': depth})
+        return res
     m = menu()
     if kind == 'extra':
         extra = [[('route', '/w', 'GET', False), ('route', '/w', 'PUT', False), ('rm', '/w', 'GET')],
@@ -304,11 +350,23 @@ def _norm(op):
 
 def replay(case):
     om = sut.load()
-    hist = tuple(_norm(o) for o in case['hist'])
+    hist = tuple(_norm(o) for o in case.get('hist', []))
     extra_rules = sorted({o[1] for o in hist if o[1] not in RULES})
     EXTRA_RULES[:] = extra_rules
     EXTRA_PATHS[:] = [r.replace('{p}', '7') for r in extra_rules]
     try:
+        if case['kind'] == 'path':
+            app = om.Ombott()
+            for rule, meth in (('/x', 'GET'), ('/x/{p}', 'GET'), ('/y', 'POST')):
+                app.route(rule, meth, make_handler(app, 'H' + rule))
+            m = Model()
+            m.t = {'/x': {'GET': 'H/x'}, '/x/{p}': {'GET': 'H/x/{p}'}, '/y': {'POST': 'H/y'}}
+            exp = m.expect(case['method'], case['path'])
+            got = probe(app, case['method'], case['path'])
+            if got[0] == exp[0] and (exp[0] != 200 or got[1] == exp[1]) and (exp[0] != 405 or got[2] == exp[2]):
+                return None
+            return (f'routes GET /x, GET /x/{{p}}, POST /y: {case["method"]} {case["path"]!r} is answered {got[0]} (handler {got[1]}, Allow {got[2]!r}); '
+                    f'by the route table it must be {exp[0]} (handler {exp[1]}, Allow {exp[2]!r})')
         if case['kind'] == 'state':
             probs, _, _ = judge_state(om, hist)
             if not probs:
